@@ -5,7 +5,7 @@
 struct opts { uint32_t sev; uint8_t inc; uint32_t checks; struct sstr defines; uint8_t cfg, force; int maxcfg, level; uint8_t hasAddon; struct sstr aname, aargs, premium, product, undefs;
               int stdc, stdcpp, lang, platform; struct sstr libs; };
 static void run(struct opts* o, uint8_t* out, uint32_t* len) {
-  memset(out, 0, 64);
+  memset(out, 0, 160);
   k_toolinfo(o->sev, o->inc, o->checks, (uint8_t*)&o->defines, o->cfg, o->force, o->maxcfg, o->level, o->hasAddon, (uint8_t*)&o->aname, (uint8_t*)&o->aargs, (uint8_t*)&o->premium,
              (uint8_t*)&o->product, (uint8_t*)&o->undefs, o->stdc, o->stdcpp, o->lang, o->platform, (uint8_t*)&o->libs, out, (uint8_t*)len);
 }
@@ -13,7 +13,7 @@ static void fix(struct sstr* s) { s->p = s->u.buf; }
 static int streq(struct sstr* a, struct sstr* b) { if (a->n != b->n) return 0; for (unsigned i = 0; i < 1; i++) if (i < a->n && a->u.buf[i] != b->u.buf[i]) return 0; return 1; }
 enum { SEV_WARNING = 2, SEV_STYLE = 3, SEV_PERFORMANCE = 4, SEV_PORTABILITY = 5, SEV_INFORMATION = 6 };
 void harness(void) {
-  struct opts A, B; uint8_t outA[64], outB[64]; uint32_t lenA = 0, lenB = 0;
+  struct opts A, B; uint8_t outA[160], outB[160]; uint32_t lenA = 0, lenB = 0;
   A.sev = in_u32(); A.inc = in_range(0, 1); A.checks = in_u32(); sstr_sym(&A.defines, 0, 1); A.cfg = in_range(0, 1); A.force = in_range(0, 1); A.maxcfg = (int)in_u32(); A.level = (int)in_range(0, 3);
   A.hasAddon = 1; sstr_sym(&A.aname, 0, 1); sstr_sym(&A.aargs, 0, 1); sstr_sym(&A.premium, 0, 1); sstr_sym(&A.product, 0, 1); sstr_sym(&A.undefs, 0, 1);
   A.stdc = (int)in_range(0, 4); A.stdcpp = (int)in_range(0, 7); A.lang = (int)in_range(0, 2); A.platform = (int)in_range(0, 7); sstr_sym(&A.libs, 0, 1);
@@ -41,7 +41,8 @@ void harness(void) {
   run(&A, outA, &lenA); run(&B, outB, &lenB);
   H_ASSERT(!__exc_pending, "no exception");
   int same = (lenA == lenB);
-  for (unsigned i = 0; i < 64; i++) if (i < lenA && outA[i] != outB[i]) same = 0;
+  for (unsigned i = 0; i < 160; i++) if (i < lenA && outA[i] != outB[i]) same = 0;
+  H_ASSERT(lenA <= 160 && lenB <= 160, "the byte log holds the whole key string");
   H_OUT("lenA", lenA); H_OUT("same", same);
   H_ASSERT(!same, "changing this option changes the cache key string");
   H_WITNESS(!(lenA > 8), "a key string of more than 8 bytes is reachable");
